@@ -178,9 +178,26 @@ var c06AtomLeaves = []string{
 	"a", "aB_1", "[]", "{}", "!", ";", ",", "|", "+", "-", "*", ":-", "-->", "\\", ".", "..", "/*", "%", "", "A", "_", "_a", "hello world", "\n", "it's", "\\\\", "é", "日本", "∀", "1a", "0", "e", "E", "mod", "is", "dynamic", "f", "'", "\"", "`", "a.b", "[", "{}x", "?", "- ", "=..", "\t", "\x01", "ÿ", "xfx", "€", "😀", "\u00a0", "١", "a€b",
 }
 
+// one representative of every Unicode general category (the lexer and the writer each classify
+// characters; any disagreement between two classifications shows on some category)
+var c06CategoryChars = []string{
+	"A", "a", "ǅ", "ʰ", "日", "́", "ः", "⃝", "１", "٣", "Ⅷ", "½", "‿", "‐", "（", "）", "«", "»", "¡", "∑", "€", "˅", "©", " ", " ", " ", "", "​", "", "�", "𝟘", "ß", "İ", "ı",
+}
+
+func c06CategoryAtoms() []string {
+	var out []string
+	for _, c := range c06CategoryChars {
+		out = append(out, c, "a"+c, c+"a", "a"+c+"b", "_"+c)
+	}
+	return out
+}
+
 func c06Leaves(full bool) []ref.Term {
 	var out []ref.Term
 	atoms := c06AtomLeaves
+	if full {
+		atoms = append(append([]string{}, atoms...), c06CategoryAtoms()...)
+	}
 	if !full {
 		atoms = []string{"a", "-", "[]", "hello world", "+", ",", "|"}
 	}
@@ -246,7 +263,27 @@ func c06Emit(w *h.W, e *c06Env, c *c06Case, t ref.Term, writer string) {
 }
 
 // signature: the shape of the term (functor classes) and what went wrong
+func c06HasFFFD(t ref.Term) bool {
+	switch x := ref.Deref(t).(type) {
+	case ref.Atom:
+		return strings.ContainsRune(string(x), '\ufffd')
+	case *ref.Cmp:
+		if strings.ContainsRune(x.F, '\ufffd') {
+			return true
+		}
+		for _, a := range x.Args {
+			if c06HasFFFD(a) {
+				return true
+			}
+		}
+	}
+	return false
+}
+
 func c06Sig(t ref.Term, writer, act string) string {
+	if c06HasFFFD(t) && strings.HasPrefix(act, "the written text is not accepted") {
+		return "roundtrip: an atom containing U+FFFD is written as \\xfffd\\, which the reader rejects as an invalid escape"
+	}
 	kind := "reads back as a different term"
 	if strings.HasPrefix(act, "the written text is not accepted") {
 		kind = "text not accepted by the reader"
@@ -290,6 +327,8 @@ func c06Shape(t ref.Term, d int) string {
 func atomClass(s string) string {
 	letter := func(r rune) bool { return r == '_' || r >= 'a' && r <= 'z' || r >= 'A' && r <= 'Z' || r >= '0' && r <= '9' }
 	switch {
+	case strings.ContainsRune(s, '\ufffd'):
+		return "[contains U+FFFD]"
 	case s == "":
 		return "[empty]"
 	case s == "[]" || s == "{}" || s == "!" || s == ";" || s == "," || s == "|":
